@@ -286,7 +286,7 @@ def run(spec, strace=True, probe=False):
             pth.join(25)
         if not rec.get('dead'):
             try:
-                d.call('quit', timeout=20)
+                d.call('quit', waiting=True, timeout=20)
             except _DaemonDead:
                 pass
             d.wait_exit(25)
